@@ -111,7 +111,7 @@ Prims == {Prim("null"), Prim("boolean"), Prim("int"), Prim("long"), Prim("float"
           FixedS("F2", 2), FixedS("F0", 0), EnumS("E", <<"A", "B", "C">>)}
 NullableOf(t) == {UnionS(<<PNull, t>>), UnionS(<<t, PNull>>)}
 Level1 == {ArrayS(t) : t \in Prims} \cup {MapS(t) : t \in Prims} \cup UNION {NullableOf(t) : t \in Prims \ {PNull}}
-          \cup {UnionS(<<PStr>>), UnionS(<<PLong, PStr, PNull>>)}
+          \cup {UnionS(<<PStr>>), UnionS(<<PLong, PStr, PNull>>), UnionS(<<Prim("int"), PLong>>), UnionS(<<PNull, Prim("int"), PLong>>)}
           \cup {RecordS("R", <<>>), RecordS("R", <<FieldS("a", PLong), FieldS("b", PStr)>>)}
 Level2 == {ArrayS(ArrayS(PLong)), ArrayS(MapS(PStr)), MapS(ArrayS(PStr)), MapS(MapS(PLong)),
            ArrayS(UnionS(<<PNull, PLong>>)), MapS(UnionS(<<PStr, PNull>>)),
@@ -128,10 +128,15 @@ Nested == RecordS("N", <<FieldS("i", Inner), FieldS("li", ArrayS(Inner)), FieldS
 Deep == RecordS("D", <<FieldS("mm", MapS(ArrayS(PLong))), FieldS("n", RecordS("N2", <<FieldS("u", UnionS(<<PStr, PNull>>)), FieldS("v", PLong)>>)), FieldS("e", Prim("int"))>>)
 ProjUniverse == IF Size = "proj" THEN {Wide, Nested} ELSE {Wide, Nested, Deep, ArrayS(Inner), MapS(Inner)}
 
+Level3 == {ArrayS(MapS(ArrayS(PLong))), MapS(UnionS(<<PNull, ArrayS(PStr)>>)), ArrayS(UnionS(<<RecordS("U", <<FieldS("q", PLong)>>), PNull>>)),
+           MapS(RecordS("MR", <<FieldS("l", ArrayS(PLong)), FieldS("u", UnionS(<<PNull, PStr>>))>>)),
+           RecordS("R3", <<FieldS("a", ArrayS(RecordS("In", <<FieldS("m", MapS(PLong)), FieldS("f", FixedS("F1", 1))>>))), FieldS("z", Prim("boolean"))>>),
+           UnionS(<<PNull, RecordS("UR", <<FieldS("aa", ArrayS(ArrayS(PStr)))>>)>>),
+           ArrayS(Prim("bytes")), MapS(Prim("double")), ArrayS(Prim("boolean")), MapS(FixedS("MF", 2)), ArrayS(UnionS(<<Prim("double"), PNull>>))}
 Universe == IF Size \in {"proj", "projfull"} THEN ProjUniverse ELSE IF Size = "quick" THEN Prims \cup {ArrayS(PLong), MapS(PStr), UnionS(<<PNull, PStr>>), UnionS(<<PLong, PNull>>),
                                                RecordS("R", <<FieldS("a", PLong), FieldS("b", PStr)>>), ArrayS(ArrayS(PLong)),
                                                RecordS("R", <<FieldS("l", ArrayS(PLong)), FieldS("m", MapS(PStr)), FieldS("z", PLong)>>)}
-            ELSE Prims \cup Level1 \cup Level2
+            ELSE Prims \cup Level1 \cup Level2 \cup Level3
 
 Init == x \in {[s |-> s, d |-> NilD, e |-> <<>>] : s \in Universe} /\ ph = 0
 Next == \/ ph = 0 /\ x' \in {[s |-> x.s, d |-> d, e |-> <<>>] : d \in Datums(x.s)} /\ ph' = 1
